@@ -53,14 +53,14 @@ func init() {
 }
 
 func runC01(a *A) {
-	r := resolveRoles(a, "C01-R0")
-	if r == nil {
-		return
+	if r := resolveRolesG(a, "C01-R0", "pt"); r != nil {
+		ar := armAnalysis(a.W, r)
+		c01Rows(a, r, ar)
+		c01Query(a, r, ar)
 	}
-	ar := armAnalysis(a.W, r)
-	c01Rows(a, r, ar)
-	c01Query(a, r, ar)
-	c01Framing(a, r)
+	if rc := resolveRolesG(a, "C01-R4", "c"); rc != nil {
+		c01Framing(a, rc)
+	}
 }
 
 // stmtConstName: the Statement* name of a constant operand.
